@@ -92,12 +92,12 @@ def World.alloc (w : World) (h : Header) : Nat × World := (w.heap.length, { w w
 def World.get (w : World) (a : Nat) : Header := (w.heap[a]?).getD []
 def World.set (w : World) (a : Nat) (h : Header) : World := { w with heap := w.heap.set a h }
 
-inductive ErrC | ser | tx | read | dec | json | url | method | other
+inductive ErrC | ser | tx | read | dec | json | url | method | stream | other
 deriving DecidableEq, Repr
 
 def ErrC.show : ErrC → String
   | .ser => "ser" | .tx => "tx" | .read => "read" | .dec => "dec" | .json => "json"
-  | .url => "url" | .method => "method" | .other => "other"
+  | .url => "url" | .method => "method" | .stream => "stream" | .other => "other"
 
 def World.target (w : World) (a : Nat) : Target := (w.targets[a]?).getD ([], 0)
 def World.setTarget (w : World) (a : Nat) (t : Target) : World := { w with targets := w.targets.set a t }
@@ -109,7 +109,11 @@ inductive Outcome
 deriving DecidableEq, Repr
 
 inductive Body
-  | json (a : Str) (n : Int)
+  | json (a : Str) (n : Int)            -- a (non-nil pointer to a) struct {A string; N int}
+  | lit (text : Str)                    -- any other body VALUE, given by its JSON text: a nil slice / nil map (`null`), an empty
+                                        -- slice / map (`[]`, `{}`), a filled one, a struct value.  `fpgo.IsNil` (l.1483-1490 of
+                                        -- fp.go) calls only a nil POINTER (or the untyped nil) nil, so all of these are serialized;
+                                        -- the nil pointer is the `none` of `Option Body`
   | form (fields : List (Str × Str))
 deriving DecidableEq, Repr
 
@@ -358,20 +362,30 @@ def contentTypeDeclaredBy (name : String) : Option String :=
 def jsonText (a : Str) (n : Int) : Str :=
   "{\"A\":\"".toList ++ a ++ "\",\"N\":".toList ++ (toString n).toList ++ "}".toList
 
+def bodyText : Body → Str
+  | .json a n => jsonText a n
+  | .lit t => t
+  | .form _ => []
+
 def bodyRecord : Body → Str
   | .json a n => "raw:".toList ++ hex (jsonText a n)
+  | .lit t => "raw:".toList ++ hex t
   | .form fs => "mp:".toList ++ joinWith ",".toList (sortBy strLt (fs.map fun kv => hex kv.1 ++ '=' :: hex kv.2))
 
 def mpContentType : Str := "multipart/form-data; boundary=*".toList
 
-inductive Fault | none | ser | tx | read | dec | dect
+/-- `sstream k`: the serializer returns a STREAMING `io.Reader` (not a `*bytes.Reader`): `none` = it delivers everything,
+    `some k` = it fails with a non-EOF error after `k` bytes (0 = at once).  The transport, which reads the body while
+    sending, aborts with that error. -/
+inductive Fault | none | ser | tx | read | dec | dect | sstream (k : Option Nat)
 deriving DecidableEq, Repr
 
 /-- fault tokens: `tx`, `txtemp`, `txtimeout`, `txdl`, … are all transport failures (the error KIND —
     plain, net.Error Temporary/Timeout, context.DeadlineExceeded, ECONNRESET, wrapped — must make no
     difference); `read` / `readmid` are body-read failures (at once / after some bytes) -/
 def parseFault (s : String) : Fault :=
-  if s = "ser" then .ser else if s.startsWith "tx" then .tx else if s.startsWith "read" then .read
+  if s = "sstream" then .sstream none else if s = "sstreamk" then .sstream (some 3) else if s = "sstream0" then .sstream (some 0)
+  else if s = "ser" then .ser else if s.startsWith "tx" then .tx else if s.startsWith "read" then .read
   else if s = "dec" then .dec else if s = "dect" then .dect else .none
 
 /-- what the default JSON deserializer makes of a response body, given a `*R` target -/
@@ -401,16 +415,27 @@ def parseRespL (s : Str) : RespKind :=
 
 def parseResp (s : String) : RespKind := parseRespL s.toList
 
+/-- the body record of a streaming reader that breaks after `k` bytes of a body of `len` bytes: what the transport got -/
+def streamFailRecord (k len : Nat) : Str := "sfail:".toList ++ (toString (min k len)).toList
+
+def isStreamFail (rec : Str) : Bool := "sfail:".toList.isPrefixOf rec
+
 /-- the harness environment: `resp` is the response spec; the transport hands it back as the body and the
     deserializer is applied to the bytes it is given -/
 def envOf (f : Fault) (resp : Str) : Env where
   jsonSer b := if f = .ser then .error .ser else match b with
-    | .json .. => .ok (bodyRecord b)
-    | _ => .error .other
+    | .form .. => .error .other
+    | _ => match f with
+      | .sstream (some k) => .ok (streamFailRecord k (bodyText b).length)
+      | _ => .ok (bodyRecord b)
   mpSer b := if f = .ser then .error .ser else match b with
-    | .form .. => .ok (bodyRecord b, mpContentType)
+    | .form .. => match f with
+      | .sstream (some k) => .ok (streamFailRecord k 1000, mpContentType)   -- (a multipart body is longer than any k used)
+      | _ => .ok (bodyRecord b, mpContentType)
     | _ => .error .other
-  transport _ := if f = .tx then .error .tx else .ok (if f = .read then .error .read else .ok resp)
+  -- the transport reads the request body while sending: a body stream that breaks makes RoundTrip fail
+  transport r := if isStreamFail r.body then .error .stream
+    else if f = .tx then .error .tx else .ok (if f = .read then .error .read else .ok resp)
   deser bytes cur := if f = .dec then (none, some .dec) else if f = .dect then (none, none) else
     match parseRespL bytes with
     | .ok t => (some t, none)
@@ -442,6 +467,12 @@ def parseBody (s : String) : Option Body :=
     match (s.drop 1).toString.splitOn ":" with
     | [a, n] => some (.json (unhex a.toList) (n.toInt?.getD 0))
     | _ => none
+  else if s = "vsn" ∨ s = "vmn" then some (.lit "null".toList)            -- nil slice, nil map
+  else if s = "vse" then some (.lit "[]".toList)                            -- empty non-nil slice
+  else if s = "vsv" then some (.lit "[1,2]".toList)
+  else if s = "vme" then some (.lit "{}".toList)                            -- empty non-nil map
+  else if s = "vmv" then some (.lit "{\"a\":1}".toList)
+  else if s = "vz" then some (.lit (jsonText [] 0))                          -- zero struct VALUE
   else if s = "f-" then some (.form [])
   else if s.startsWith "f" then
     some (.form (((s.drop 1).toString.splitOn ",").filterMap fun e => match e.splitOn "=" with
@@ -600,9 +631,16 @@ def specOp (c : Cfg) (st : SpecSt) (op : String) : SpecSt × List Str :=
         let hdr0 : Header := (c.hdr.getD [])
         let ct := c.specContentType body
         let hdr := if ct ≠ [] then hAdd hdr0 "Content-Type".toList ct else hdr0
-        let bodyRec := match body with | none => "nil".toList | some b => bodyRecord b
+        -- a serializer whose streaming reader breaks: the failure must surface as Err (the transport saw a broken body)
+        let streamFails : Option Nat := match f, body with
+          | .sstream (some k), some b => some (match b with | .form _ => min k 1000 | _ => min k (bodyText b).length)
+          | _, _ => none
+        let bodyRec := match streamFails, body with
+          | some n, _ => "sfail:".toList ++ (toString n).toList
+          | none, none => "nil".toList
+          | none, some b => bodyRecord b
         -- (what TargetObject holds after a decoding FAILURE is not prescribed: the untouched target or nil)
-        let tails : List Str := match f with
+        let tails : List Str := if streamFails.isSome then ["err=stream tgt=nil".toList] else match f with
           | .tx => ["err=tx tgt=nil".toList]
           | .read => ["err=read tgt=nil".toList]
           | .dec => ["err=dec tgt=nil".toList]
@@ -618,7 +656,7 @@ def specOp (c : Cfg) (st : SpecSt) (op : String) : SpecSt × List Str :=
           | some u' => tails.map fun tail => "n=1 ".toList ++ showSent ⟨m, u', 0, hdr, bodyRec⟩ ++ ' ' :: tail
         let sentNow := if (specURLs c ps).all (fun u => (urlParse u).isSome) then 1 else 0
         let cur' := match parseResp r with
-          | .ok t => if sentNow = 1 ∧ (f = .none ∨ f = .ser) then t else cur
+          | .ok t => if sentNow = 1 ∧ streamFails.isNone ∧ f ≠ .tx ∧ f ≠ .read ∧ f ≠ .dec ∧ f ≠ .dect then t else cur
           | _ => cur
         ({ st with sent := st.sent + sentNow, calls := st.calls.set i (ps, body, cur') }, outs)
   | ["mut"] => (st, [if st.sent = 0 then "nomut".toList else "nil".toList])
